@@ -33,7 +33,7 @@ func init() {
 			"targets that net/http's parser rejects (invalid escapes, CTLs) never reach the handler and are not judged",
 			"a request that asks for or sends a media type the API does not speak (Accept: text/x-none, Content-Type: text/x-none) and fits a template may be refused with 406/415 without a handler running (class fit-refused-by-media-type-*); if a handler runs it must be the designated one; the 404/405/Allow expectations are unchanged",
 			"MatchedRouteFrom(r) seen by a Builder middleware: when present its PathPattern must be the designated template under the base path and Params.Get(name) the value the handler received; its absence is only counted (class matched-route-absent-from-context); a request URL rewritten by the library is only counted (class request-url-rewritten-by-the-library)",
-			"related names: what the handler receives is judged by name for every placeholder when a generated-server style binder reads route.Params, and MatchedRouteFrom(r).Params.Get/GetOK seen by a Builder must yield the instantiating text for EVERY placeholder (a mismatch is reported as wrong-path-params). The untyped binder hands the handler one map keyed by parameter name: an entry whose name a query / header parameter of the operation bears too is not judged (class untyped-binder-entry-shared-with-query-or-header-parameter-not-judged: which of the two values lands there follows map order on the unchanged tree); an entry that is ABSENT next to a delivered entry whose name is equal up to letter case and punctuation ({id}/{ID}, {id}/{id_}: the dependency that collects an operation's parameters keys them by Go-ified name and keeps one) is not judged either (class untyped-binder-entry-absent-next-to-delivered-twin-name-not-judged), the delivered one is judged like any other",
+			"related names: what the handler receives is judged by name for every placeholder when a generated-server style binder reads route.Params, and MatchedRouteFrom(r).Params.Get/GetOK seen by a Builder must yield the instantiating text for EVERY placeholder (a mismatch is reported as wrong-path-params). The untyped binder hands the handler one map keyed by parameter name: an entry whose name a query / header parameter of the operation bears too is not judged (class untyped-binder-entry-shared-with-query-or-header-parameter-not-judged: which of the two values lands there follows map order on the unchanged tree); an entry that is ABSENT next to a delivered entry whose name is equal up to letter case and punctuation ({id}/{ID}, {id}/{id_}: the dependency that collects an operation's parameters keys them by Go-ified name and keeps one) is a violation with a signature of its own, path-param-not-delivered/placeholder-names-collide-in-the-parameter-table, recorded as a known finding; the delivered one is judged like any other",
 			"signature classes simple/placeholder-names-differ-only-in-case, simple/placeholder-name-prefix-of-another, simple/placeholder-name-related-to-query-or-header-parameter: the request meets (loosely) a template with such names and no composite / prefixed / ':'-'*' template (input feature only)",
 			"loopback TCP arm: the listener is opened with 5 attempts, each request is sent up to 3 times on fresh connections; a request that never reached the library's handler and got no answer is counted (tcp-undelivered, note tcp_undelivered), a listener that cannot be opened is counted (tcp-harness-listen-failed, note tcp_listen_failed): neither is ever a violation. A panic of the library under the real server is a violation (the wrapper catches it before net/http does); 'handler returned, no parsable answer' is judged as an answer without status only when all three attempts went that way",
 			"signature classes: prefixed-placeholder-segment/routed-as-parameter = every x{a} template the request meets also has a plain {p} segment, no {a}.{b} segment, and the request writes each literal as declared followed by a non-empty text (dispatched by the unchanged tree, never a known finding); .../empty-text-after-literal = the same but a request segment is just the literal; panic/colon-or-star-.../no-two-wildcards-at-one-position = a panic for a request that does not reach two '*' literals at one trie position under one method (the recorded panic needs two)",
@@ -569,7 +569,9 @@ func runCase(m *mon.M, c *Case) {
 				continue
 			}
 			if dropped > 0 {
-				m.Class("untyped-binder-entry-absent-next-to-delivered-twin-name-not-judged")
+				// a genuine defect (recorded as a known finding): the handler is owed every placeholder's text by name
+				m.Class("untyped-binder-entry-absent-next-to-delivered-twin-name")
+				m.Violate("path-param-not-delivered/placeholder-names-collide-in-the-parameter-table", fmt.Sprintf("%s %q (cleaned %q): %s received %v: the value of a placeholder whose name equals another one's up to letter case and punctuation ({id}/{ID}, {id}/{id_}) is missing; acceptable assignments %v", rq.Method, rq.Target, cleaned, s.obs.ranOp, s.obs.params, chosen.assigns), one)
 			}
 			if skipped > 0 {
 				m.Class("untyped-binder-entry-shared-with-query-or-header-parameter-not-judged")
